@@ -97,12 +97,14 @@ var ruleRuneErr = &Rule{
 
 var ruleNarrow = &Rule{
 	Name: "R-NARROW", NeedSSA: true,
-	Doc: "in package parser no character (a value of type rune, or an int derived from one) is converted to an 8-bit integer unless the branch facts bound it below 256 (a dominating test ch < utf8.RuneSelf, ch < 256, ch <= 0xff or an equality with an ASCII constant): otherwise characters that agree in their low eight bits are classified alike",
+	Doc: "in packages parser and ast no character (a value of type rune, or an int derived from one) is converted to an 8-bit integer unless the branch facts bound it below 256 (a dominating test ch < utf8.RuneSelf, ch < 256, ch <= 0xff or an equality with an ASCII constant): otherwise characters that agree in their low eight bits are classified alike",
 	Run: func(p *Prog) *RuleOut {
 		out := newOut("R-NARROW")
 		n, nrune := 0, 0
 		for fn := range p.AllFns {
-			if fnPkgPath(fn) != pkgParser || fn.Blocks == nil {
+			// the lexer, and the part of package ast that reads text character
+			// by character (the like_regex flag letters)
+			if (fnPkgPath(fn) != pkgParser && fnPkgPath(fn) != pkgAST) || fn.Blocks == nil {
 				continue
 			}
 			ord := 0
@@ -164,6 +166,24 @@ var ruleNarrow = &Rule{
 							c.Op == token.GTR && !f.Truth && k <= lim-1,
 							c.Op == token.EQL && f.Truth && k >= 0 && k <= lim-1:
 							bounded = true
+						}
+					}
+					// … or a named character test that holds here and accepts
+					// nothing at or above the limit (`isHex(c)`: computed
+					// exactly over every code point, as in R-CHARCLASS)
+					if !bounded {
+						lim := int64(256)
+						if dt.Kind() == types.Uint16 || dt.Kind() == types.Int16 {
+							lim = 65536
+						}
+						for _, f := range factsAt(b) {
+							pc, ok := f.Cond.(*ssa.Call)
+							if !ok || !f.Truth || pc.Call.IsInvoke() || len(pc.Call.Args) != 1 || !sameValue(pc.Call.Args[0], cv.X) {
+								continue
+							}
+							if acc, ok := p.ccAccepted(pc.Call.StaticCallee()); ok && len(acc) > 0 && acc[0].lo >= 0 && acc[len(acc)-1].hi < lim {
+								bounded = true
+							}
 						}
 					}
 					if bounded {
